@@ -89,6 +89,9 @@ impl Prop for C03 {
             GenSpec::random("big-records", tier.pick(24, 600)),
             // one long, mostly non-ASCII string (4 KiB..64 KiB) in each string-valued field
             GenSpec::random("long-strings", tier.pick(160, 4_000)),
+            // streams of 10..100 KB with hundreds of small records (references with MAG/ANGLE, texts, properties), read from a FILE:
+            // records and their payloads then straddle every buffer size a buffered reader may use
+            GenSpec::random("large-files", tier.pick(120, 3_000)),
         ]
     }
     fn run_case(&self, cx: &mut Cx) {
@@ -118,6 +121,23 @@ impl Prop for C03 {
                 let via_file = cx.rng.bool();
                 self.check(cx, &ast, &EncOpts::default(), via_file, "one long non-ASCII string");
                 cx.sample(|| json!({"long_string_field": which}));
+            }
+            "large-files" => {
+                let cfgl = GenCfg { strclass: StrClass::Mixed, maxstr: 24, wide_reals: true, max_structs: 1, max_elems: 0, max_pts: 6 };
+                let n = 250 + cx.rng.usize(1800);
+                // a lead-in string of random length slides everything that follows across the block boundaries
+                let lead = 1 + cx.rng.usize(64);
+                let mut elems = Vec::with_capacity(n + 1);
+                elems.push(NElem { elflags: None, plex: None, kind: NKind::Text { layer: 1, texttype: 0, presentation: None, pathtype: None, width: None, strans: None, xy: vec![0, 0], string: vec![b'L'; lead] }, props: vec![] });
+                for _ in 0..n {
+                    // mostly references and texts (STRANS + MAG + ANGLE, strings), some of every other kind
+                    let kind = *cx.rng.pick(&[2usize, 2, 3, 4, 4, 0, 1, 5, 6]);
+                    elems.push(rand_elem(&mut cx.rng, &cfgl, kind, None, None, None, &[]));
+                }
+                let ast = NLib { version: 600, dates: [1; 12], name: b"large".to_vec(), units: (crate::refs::gdsreal::encode_ref(1e-3).unwrap(), crate::refs::gdsreal::encode_ref(1e-9).unwrap()), structs: vec![NStruct { dates: [1; 12], name: b"s".to_vec(), elems }], ..Default::default() };
+                self.check(cx, &ast, &EncOpts::default(), true, "large stream read from a file");
+                cx.count("large_files_read");
+                cx.sample(|| json!({"large_file_elements": n}));
             }
             "trailing" => {
                 let ast = rand_lib(&mut cx.rng, &cfg);
